@@ -73,7 +73,9 @@ type fixture struct {
 	files map[string]string // absolute path -> content
 }
 
-var fixtureInside = []string{"pub/x", "pub/s/one", "pub/a.txt", "pub/dir/index.html", "pub/dir/b", "pub/index.html", "pub/sp ace", "pub/..x", "pub/idx2/home.htm", "pub/deep/d2/index.html", "pub/static/a.txt", "pub/s/t/u.txt"}
+var fixtureInside = []string{"pub/x", "pub/s/one", "pub/a.txt", "pub/dir/index.html", "pub/dir/b", "pub/index.html", "pub/sp ace", "pub/..x", "pub/idx2/home.htm", "pub/deep/d2/index.html", "pub/static/a.txt", "pub/s/t/u.txt",
+	// directories that hold no index file, only files whose names resemble one
+	"pub/legacy/index.htm", "pub/legacy/index.html.bak", "pub/legacy/default.html", "pub/legacy/INDEX.HTML", "pub/legacy/index", "pub/legacy/index.php", "pub/legacy/_index.html", "pub/diridx/index.htm", "pub/diridx/default.htm"}
 var fixtureOutside = []string{"secret.txt", "pubx/leak", "pub2/a.txt", "index.html", "a.txt"}
 
 func newFixture() *fixture {
@@ -362,7 +364,7 @@ func insideContent(fx *fixture, body string) bool {
 	return false
 }
 
-var staticSegs = []string{"a.txt", "dir", "b", "noidx", "index.html", "..", "..", ".", "", "sp ace", "..x", "secret.txt", "pubx", "leak", "static", "staticfoo", "static..", "pub", "deep", "d2", "diridx", "idx2", "home.htm", "a.txt\x00", "%2e%2e", "pub2", "s", "t", "u.txt", "..\\secret.txt", "...", "a.txt/"}
+var staticSegs = []string{"a.txt", "dir", "b", "noidx", "index.html", "..", "..", ".", "", "sp ace", "..x", "secret.txt", "pubx", "leak", "static", "staticfoo", "static..", "pub", "deep", "d2", "diridx", "idx2", "home.htm", "a.txt\x00", "%2e%2e", "pub2", "s", "t", "u.txt", "..\\secret.txt", "...", "a.txt/", "legacy", "index.htm"}
 var staticPrefixes = []string{"", "static", "/static", "static/", "/static/", "/", "s/t", "//static//", ".well-known", "/.s/", "..data"}
 
 func genStaticCase(rng *rand.Rand) *staticCase {
@@ -413,7 +415,7 @@ func genStaticCase(rng *rand.Rand) *staticCase {
 	p := sb.String()
 	if rng.Intn(10) < 4 {
 		// fixture-directed: an existing inside file or directory under the right prefix, lightly disguised
-		rel := []string{"a.txt", "dir/index.html", "dir/b", "dir", "dir/", "", "index.html", "sp ace", "..x", "idx2", "idx2/", "idx2/home.htm", "deep/d2", "deep/d2/", "static/a.txt", "s/t/u.txt", "noidx/", "diridx/", "deep", "empty.txt", "big.bin"}[rng.Intn(21)]
+		rel := []string{"a.txt", "dir/index.html", "dir/b", "dir", "dir/", "", "index.html", "sp ace", "..x", "idx2", "idx2/", "idx2/home.htm", "deep/d2", "deep/d2/", "static/a.txt", "s/t/u.txt", "noidx/", "diridx/", "deep", "empty.txt", "big.bin", "legacy/", "legacy", "legacy/index.htm"}[rng.Intn(24)]
 		switch rng.Intn(8) {
 		case 0:
 			rel = "./" + rel
@@ -739,7 +741,7 @@ func judgeVolatile(w *core.W, fx *fixture, c *volatileCase) {
 }
 
 func runC16(r *core.Run) {
-	r.Rule("fixture tree with unique content per file: inside pub/{a.txt, dir/{index.html,b}, index.html, 'sp ace', ..x, idx2/home.htm, deep/d2/index.html, static/a.txt, s/t/u.txt, noidx/, diridx/index.html/} and outside {secret.txt, pubx/leak, pub2/a.txt, index.html, a.txt}; requests: 0-5 segments from a pool with .., ., empty, NUL, backslash, %2e%2e, prefix look-alikes (/staticfoo, /static..), doubled and trailing slashes, a 200-fold ../ run; methods GET/HEAD/others/lower-case/empty; options: Prefix in 8 spellings incl. '/', two segments and doubled slashes, Index default/custom/missing, ETag (+If-None-Match match/other), Expires+CacheControl, FileSystem option, faulty FileSystem (Open/Stat failures, also for the index), Directory left unset (default `public` under the working directory), options passed as a slice that the caller overwrites afterwards; FileSystem as http.Dir or as http.FS(os.DirFS) (a third of the custom-file-system cases); index names with several elements; If-None-Match carrying the tag the middleware's own formula yields for a directory. A second stream (1500/60000 cases) changes the served tree between two requests of one instance: a file is served, revalidated, then removed / replaced by a directory / rewritten, and requested again with the old tag. Oracle: independent outcome function (path.Clean + os.Stat on the fixture) and the universal predicate that no outside-file marker ever appears; silent = no status, no body, no headers and the rest of the chain ran. non-trivial = distinct (option set, method, path class, path)")
+	r.Rule("fixture tree with unique content per file: inside pub/{a.txt, dir/{index.html,b}, index.html, 'sp ace', ..x, idx2/home.htm, deep/d2/index.html, static/a.txt, s/t/u.txt, noidx/, diridx/index.html/, legacy/ and diridx/ with look-alikes of an index only (index.htm, default.html, INDEX.HTML, index.html.bak, …)} and outside {secret.txt, pubx/leak, pub2/a.txt, index.html, a.txt}; requests: 0-5 segments from a pool with .., ., empty, NUL, backslash, %2e%2e, prefix look-alikes (/staticfoo, /static..), doubled and trailing slashes, a 200-fold ../ run; methods GET/HEAD/others/lower-case/empty; options: Prefix in 8 spellings incl. '/', two segments and doubled slashes, Index default/custom/missing, ETag (+If-None-Match match/other), Expires+CacheControl, FileSystem option, faulty FileSystem (Open/Stat failures, also for the index), Directory left unset (default `public` under the working directory), options passed as a slice that the caller overwrites afterwards; FileSystem as http.Dir or as http.FS(os.DirFS) (a third of the custom-file-system cases); index names with several elements; If-None-Match carrying the tag the middleware's own formula yields for a directory. A second stream (1500/60000 cases) changes the served tree between two requests of one instance: a file is served, revalidated, then removed / replaced by a directory / rewritten, and requested again with the old tag. Oracle: independent outcome function (path.Clean + os.Stat on the fixture) and the universal predicate that no outside-file marker ever appears; silent = no status, no body, no headers and the rest of the chain ran. non-trivial = distinct (option set, method, path class, path)")
 	r.Assume("no symlinks inside the served tree (the fixture root holds one, `public` -> `pub`, so that the default Directory can be exercised: the process works inside the fixture root) and no Range / If-Modified-Since requests; for paths with NUL or backslash only the safety predicates are judged (how http.Dir treats odd bytes is net/http's business)")
 	fx := newFixture()
 	defer fx.remove()
